@@ -70,7 +70,9 @@ Definition enc_state (s : state) : val :=
        vset (nz_assoc_N 1 (st_last_id s) ++ nz_assoc_N 2 (st_last_batch_nonce s) ++ nz_assoc_N 3 (st_out_seq s)
              ++ nz_assoc_N 4 (st_obs_cosmos_h s) ++ nz_assoc_N 5 (st_obs_ext_h s) ++ nz_assoc_N 6 (st_sigset_nonce s));
        vset (map (fun kv : bytes * (N * bytes) => VL [VB (fst kv); vNat (fst (snd kv)); VB (snd (snd kv))]) (st_status s));
-       vset (map (fun kv : bytes * (Z * Z) => VL [VB (fst kv); VI (fst (snd kv)); VI (snd (snd kv))]) (st_feerec s)) ].
+       vset (map (fun kv : bytes * (Z * Z) => VL [VB (fst kv); VI (fst (snd kv)); VI (snd (snd kv))]) (st_feerec s));
+       vset (map (fun t : token_info => VL [vNat (ti_id t); VB (ti_denom t); VB (ti_chain t); VB (ti_ext t); VI (ti_dec t); VI (ti_comm t)])
+                 (st_tokens s)) ].
 
 (* a case: (params tokens (op ...)) ; the model's answer: list of (code state) per op *)
 Definition hub_run (c : val) : val :=
